@@ -48,17 +48,21 @@ def run_many(params, known):
     from ..world import Violation
     violations = []
     count = 0
-    for seg in (4, 1):
-        for n in range(1, 13):
+    for (seg, n, lumpy) in [(sg, nn, False) for sg in (4, 1) for nn in range(1, 13)] + [(1, 1, True), (1, 2, True)]:
+        if True:
             count += 1
             datas = [hexn(1 + (k % 3), 0x10 * (k + 1)) for k in range(n)]
+            if lumpy:
+                # one-octet segments of 70- and 140-octet bundles under a schedule that lets each side
+                # run until it blocks: more than 64 messages wait in one receive buffer
+                datas = [hexn(70 * (k + 1), 0x10 * (k + 1)) for k in range(n)]
             prm = dict(scripts={'A': [('send', d) for d in datas], 'B': []}, auto_pop=False,
                        seg_mru={'A': seg, 'B': seg}, tx_init={'A': seg, 'B': seg})
             w = TcpclWorld(prm)
             sig = _Signals()
             esc = EscapeMonitor(PROP)
             w.monitors = [sig, esc]
-            case = dict(bundles=n, segment_size=seg)
+            case = dict(bundles=n, segment_size=seg, lumpy=bool(lumpy))
             found = None
             queued = []
             steps = 0
@@ -72,6 +76,11 @@ def run_many(params, known):
                     (vs, _e) = w.apply(user[0])
                     res = w.results['A'][-1] if w.results['A'] else None
                     queued.append(str(len(queued) + 1))
+                elif runs and lumpy:
+                    same = [e for e in runs if e[1] == lumpy]
+                    pick = same[0] if same else runs[0]
+                    lumpy = pick[1]
+                    (vs, _e) = w.apply(pick)
                 elif runs:
                     turn += 1
                     pick = runs[turn % len(runs)]
@@ -136,6 +145,7 @@ def scenarios(tier):
     # two bundles one way (pipelining, ids, order)
     out.append(_scen('W1-A5+A1', {'A': [s5, s1], 'B': []}, dev_bound=0, weight=12))
     out.append(_scen('W1-A1+A1', {'A': [s1, s1b], 'B': []}, dev_bound=0, weight=20))
+    out.append(_scen('W1-A1+A5', {'A': [s1, s5], 'B': []}, dev_bound=0, weight=20))
     # both directions at once
     out.append(_scen('W2-A5|B1', {'A': [s5], 'B': [s1]}, dev_bound=0, weight=40))
     # initial size above the peer MRU must be clamped
